@@ -65,6 +65,18 @@ func (l LookupSpec) build() *storage.LookupOptions {
 	return lo
 }
 
+// applyTo sets the fields of an existing options value one by one (the way a caller
+// that owns the value changes it between two lookups), never by whole-struct copy.
+func (l LookupSpec) applyTo(lo *storage.LookupOptions) {
+	f := l.build()
+	lo.MaxElements = f.MaxElements
+	lo.Offset = f.Offset
+	lo.LowerAnchor = f.LowerAnchor
+	lo.UpperAnchor = f.UpperAnchor
+	lo.LatestAnchor = f.LatestAnchor
+	lo.FilterOptions = f.FilterOptions
+}
+
 func (l LookupSpec) isDefault() bool {
 	return l.Max == 0 && l.Offset == 0 && l.Lower == nil && l.Upper == nil && !l.Latest && l.FOp == ""
 }
